@@ -284,7 +284,7 @@ def classify_callback(fx, method_q):
 
 def run(res, tier):
     fx = common.load_units(res, ['reflector/StorageReflectSession.cpp', 'reflector/DataNode.cpp', 'reflector/ReflectServer.cpp', 'reflector/AbstractReflectSession.cpp', 'reflector/DumbReflectSession.cpp'],
-                           fn_regex=r'^muscle::(StorageReflectSession|DataNode|ReflectServer|AbstractReflectSession|DumbReflectSession)')
+                           fn_regex=r'^muscle::(StorageReflectSession|DataNode|ReflectServer|AbstractReflectSession|DumbReflectSession|ImmutableHashtablePool)')
     srs = [f for f in fx.funcs.values() if f.full and (f.cls or '').startswith(SRS)]
     if len(srs) < 60:
         raise AnalysisBroken('only %d StorageReflectSession functions found' % len(srs))
@@ -549,4 +549,69 @@ def teardown_rule(res, fx):
            how='AboutToDetachFromServer at line %s precedes _sessions.Remove at line %s' % (det[0].get('l') if det else '?', rem[0].get('l') if rem else '?'),
            key='TEARDOWN-PAIR|%s|detach-before-forget' % f.q,
            message='ClearLameDucks can forget a session without AboutToDetachFromServer(): its subtree and marks stay behind')
+    # ---- the departing session takes the host node with it only when that node is empty (another session of the same host must keep its subtree)
+    f = fx.fn1(SRS + '::Cleanup')
+    hrm = [c for c in P.calls(f, r'^muscle::DataNode::RemoveChild$') if c.args() and any((x.get('q') or '').endswith('::GetNodeName') for x in c.args()[0].walk() if x.is_call())]
+    if not hrm:
+        raise AnalysisBroken('TEARDOWN-PAIR: the removal of the host node was not found in Cleanup')
+    for c in hrm:
+        hn = [x.receiver() for x in c.args()[0].walk() if x.is_call() and (x.get('q') or '').endswith('::GetNodeName') and x.receiver() is not None]
+        H = P_canon(hn[0]) if hn else None
+        ok, how = False, None
+        p = P.pos_of(f, c)
+        for (g, truth) in (C.guards_of_block(f, p[0]) if p else []):
+            gn, pol = P.strip_not(f.nodes[g])
+            if gn['k'] == 'CXXMemberCallExpr' and gn.receiver() is not None and P_canon(gn.receiver()) == H:
+                m = (gn.get('q') or '').split('::')[-1]
+                if m == 'HasChildren' and truth != pol:
+                    ok, how = True, '%s is false' % gn.text(40)
+            if gn['k'] == 'BinaryOperator' and gn.get('op') == '==' and truth == pol:
+                l, r = A.strip_casts(gn['ch'][0]), A.strip_casts(gn['ch'][1])
+                for (a, b) in ((l, r), (r, l)):
+                    if a['k'] == 'CXXMemberCallExpr' and (a.get('q') or '').split('::')[-1] == 'GetNumChildren' and a.receiver() is not None and P_canon(a.receiver()) == H and b.get('v') == 0:
+                        ok, how = True, '%s' % gn.text(40)
+        res.ob('TEARDOWN-PAIR', f.where(c), 'Cleanup removes the host node only when it has no children left', ok, how=how, function=f.q, key='TEARDOWN-PAIR|%s|host-node-empty' % f.q,
+               message='Cleanup removes the host node (recursively, with notifications) under a test other than "it has no children": when another session from the same host is still connected its whole '
+                       'subtree is destroyed by the departing session')
+    # ---- recursive removal drains ALL children with notifications
+    f = fx.fn1('muscle::DataNode::RemoveChild')
+    rec = [c for c in P.calls(f, r'^muscle::DataNode::RemoveChild$')]
+    if not rec:
+        raise AnalysisBroken('TEARDOWN-PAIR: the recursive RemoveChild call was not found')
+    loops = C.natural_loops(f)
+    for c in rec:
+        p = P.pos_of(f, c)
+        R = P_canon(c.receiver()) if c.receiver() is not None else None
+        ok = False
+        for (h, body) in loops:
+            if p and p[0] in body:
+                hc = f.nodes.get(f.blocks[h].cond) if f.blocks[h].cond is not None else None
+                if hc is not None:
+                    gn, pol = P.strip_not(hc)
+                    if gn['k'] == 'CXXMemberCallExpr' and (gn.get('q') or '').split('::')[-1] in ('HasChildren', 'GetNumChildren') and gn.receiver() is not None and P_canon(gn.receiver()) == R:
+                        ok = True
+        res.ob('TEARDOWN-PAIR', f.where(c), 'RemoveChild(recurse) removes the children of the removed node in a loop that runs until none is left', ok, function=f.q, key='TEARDOWN-PAIR|%s|drain' % f.q,
+               message='DataNode::RemoveChild no longer repeats the recursive removal until the child has no children: only the first grandchild is removed with notifications, the others vanish '
+                       'silently with the parent object, so subscribers keep nodes of a departed session')
+    # ---- copy-on-write of the shared subscriber tables: modify in place only when the caller and the cache are the ONLY holders
+    gs = [g for g in fx.funcs.values() if g.full and g.q.endswith('ImmutableHashtablePool::GetRefStatus')]
+    if not gs:
+        raise AnalysisBroken('OWN-ID: ImmutableHashtablePool::GetRefStatus not found (instantiation for the subscriber tables)')
+    g = gs[0]
+    inl = fx.enum_const('REF_STATUS_INLRUCACHE')
+    rets = [r for r in g.walk() if r['k'] == 'ReturnStmt' and r['ch'] and any(x.get('n') == 'REF_STATUS_INLRUCACHE' for x in r['ch'][0].walk())]
+    ok, how = bool(rets), None
+    for r in rets:
+        okr = False
+        p = P.pos_of(g, r)
+        for (c_, truth) in (C.guards_of_block(g, p[0]) if p else []):
+            gn, pol = P.strip_not(g.nodes[c_])
+            if gn['k'] == 'BinaryOperator' and gn.get('op') == '==' and truth == pol and any(x.is_call() and (x.get('q') or '').endswith('::GetRefCount') for x in gn.walk()) \
+                    and any(A.strip_casts(y).get('v') == 2 for y in gn['ch']):
+                okr, how = True, gn.text(40)
+        ok = ok and okr
+    res.ob('OWN-ID', g.where(), 'a shared subscriber table is classified "only the caller and the cache hold it" (so it may be modified in place) only under GetRefCount() == 2', ok, how=how, function=g.q,
+           key='OWN-ID|%s|cow-exact' % g.q.split('<')[0],
+           message='ImmutableHashtablePool::GetRefStatus reports REF_STATUS_INLRUCACHE without an exact GetRefCount() == 2 test: a table that other DataNodes still share is modified in place, so one '
+                   'session\'s subscription mark appears on (or disappears from) nodes it never subscribed to, and can outlive the session')
     f = fx.fn1('muscle::ReflectServer::DisconnectSession', ) if fx.by_q.get('muscle::ReflectServer::DisconnectSession') else None
